@@ -29,8 +29,6 @@ package cache
 // combined id starts with the given prefix (C13: "resolves to that comment and its bug, never to another").
 //@ func (*RepoCacheBug).ResolveComment
 //@   props C13
-//@   requires c != nil && c.SubCache != nil
-//@   requires [ascii] forall k int :: { prefix[k] } 0 <= k && k < len(prefix) ==> prefix[k] < 128
 //@   modifies nothing
 //@   opt trusted_frame
 //@   let comments = result.Snapshot().Comments
